@@ -34,6 +34,11 @@ def classOutcome (name : String) : Out :=
   | "search-wrong-dimension" => search ds 7 3 20 32
   | "update-absent-id" | "remove-absent-id" | "insert-existing-id" | "remove-twice"
   | "insert-oversized-metadata" | "update-oversized-metadata" => applyItem false true
+  -- client-supplied levels are overwritten by the handler's own draw (here: 1) before the batch is proposed
+  | "batch-insert-client-level" | "partition-batch-insert-client-level" =>
+    match batchWrite ds [(16, 2), (16, 2), (16, 2)] with
+    | .ok => if [(-7 : Int), 1073741824, -1].all (fun c => setLevelOutcome (proposedLevel true c 1) == .ok) then .ok else .poison
+    | o => o
   | "batch-duplicate-and-absent" => batchWrite ds [(16, 2), (16, 2), (16, 2), (16, 2)]
   -- well-formed creations and deletions; what the deletion does to a running raft group is C18's model
   | "delete-dataset-under-write-load" => (create 1 ⟨2, 1, 1, 0⟩).1
